@@ -39,9 +39,17 @@ Correspondence with the extracted model (coq/Model/Multi.v):
 import asyncio
 import itertools
 import json
+import mmap
+import os
+import pickle
 import re
+import select
 import shutil
+import signal
+import struct
 import tempfile
+import threading
+import time
 
 import aioftp
 
@@ -144,12 +152,17 @@ BODIES = {
     "abor": [("PASV", ""), (C, ""), ("ABOR", ""), ("PWD", ""), ("RETR", "f"), ("ABOR", ""), ("REST", "9"), ("ABOR", ""), (C, ""), ("RETR", "f")],
     "selfabort": [("PASV", ""), (C, ""), {"k": "send", "verb": "RETR", "arg": "big", "mode": "hold"}, ("ABOR", ""), {"k": "collect"}, ("PWD", ""), (C, ""),
                   {"k": "send", "verb": "STOR", "arg": "part", "payload": "0123456789abcdef", "mode": "split", "marg": 5}, ("ABOR", ""), {"k": "collect"}, ("MLST", "part"), ("ABOR", "")],
+    "unicode": [("MKD", "ñandú"), ("CWD", "ñandú"), ("PWD", ""), ("PASV", ""), (C, ""), ("STOR", "данные.bin", b"bytes-{d}"), (C, ""), ("MLSD", ""), ("CDUP", ""),
+                ("RNFR", "ñandú"), ("RNTO", "日本語"), (C, ""), ("LIST", ""), ("MLST", "日本語/данные.bin"), (C, ""), ("RETR", "日本語/данные.bin")],
+    # a command line that is NOT valid UTF-8 (a legacy latin-1 client): today the server drops that session - and only that one
+    "rawbytes": [("MKD", "ok1"), {"k": "cmd", "verb": "MKD", "arg": "caf\u00e9", "raw": True}, ("PWD", "")],
+    "rawbytes2": [("PASV", ""), (C, ""), {"k": "cmd", "verb": "STOR", "arg": "\u00fcber.txt", "raw": True, "payload": "x"}, ("MKD", "after")],
     "abs": [("MKD", "/{d}/e/abs"), ("RNFR", "/{d}/e/abs"), ("RNTO", "/{d}/sub/y/abs2"), ("CWD", "/{d}/sub/y/abs2"), ("PWD", ""), ("CDUP", ""), ("RMD", "abs2"), ("DELE", "/{d}/sub/x")],
 }
 # bodies that make sense before "CWD /{d}" (absolute paths only)
 ABS_BODIES = ("abs",)
 TRANSFER_BODIES = ("store", "rest", "rest2", "type", "append", "nodata", "abor")
-INTRUDERS = ("selfabort", "abor", "nodata", "store", "quit", "badrest", "relogin", "rest")
+INTRUDERS = ("selfabort", "abor", "nodata", "store", "quit", "badrest", "relogin", "rest", "type", "rawbytes")
 WORKER_OPS = ("_open", "read", "write", "seek", "close", "stat", "exists", "is_file")
 
 
@@ -367,6 +380,8 @@ class MSession(ftpsim.Session):
         if c is None:
             return None
         d = self.probe()
+        if d["rnfr"] is not None:
+            d["rnfr"] = self.gate.canon(d["rnfr"])  # real path on disk backends: strip the temporary base directory
         d["type"] = c["transfer_type"].result() if "transfer_type" in c and c["transfer_type"].done() else None
         d["lport"] = None
         d["dpeer"] = None
@@ -497,7 +512,7 @@ class MSession(ftpsim.Session):
             return
         v = verb.lower()
         st = {"v": v, "payload": payload, "mode": mode, "held": None, "gated": False}
-        line = (verb if arg == "" else verb + " " + arg).encode("utf-8") + CRLF
+        line = (verb if arg == "" else verb + " " + arg).encode("latin-1" if atom.get("raw") else "utf-8") + CRLF
         dc = self.data[0] if (self.data and v in XFER) else None
         if mode == "hold" and dc is not None and v in ("retr", "list", "mlsd"):
             link = dc[1].transport.peer.out  # server -> client direction of the data connection
@@ -667,6 +682,45 @@ def server_fingerprint(server):
     return out
 
 
+# ---------------------------------------------------------------- a frozen event loop is an observation
+LOOP_BUDGET = float(os.environ.get("C17_LOOP_BUDGET", "4"))  # wall seconds one run of a schedule may take (normal: 0.01 .. 0.5 s)
+
+
+class LoopBlocked(KeyboardInterrupt):
+    """raised IN the event-loop thread by the watchdog when one run exceeds its wall budget: the loop thread is blocked in
+    non-async code (a threading.Lock held across an await by another session's task, a blocking call, an endless loop).
+    KeyboardInterrupt subclass: the only kind of exception asyncio lets through a task step and out of run_until_complete"""
+
+
+class Watchdog:
+    def __init__(self, budget):
+        self.budget = budget
+        self.fired = False
+        self.timer = None
+        self.main = threading.main_thread().ident
+
+    def _handler(self, signum, frame):
+        if self.fired:
+            return
+        self.fired = True
+        raise LoopBlocked()
+
+    def _fire(self):
+        signal.pthread_kill(self.main, signal.SIGUSR1)
+
+    def __enter__(self):
+        self.old = signal.signal(signal.SIGUSR1, self._handler)
+        self.timer = threading.Timer(self.budget, self._fire)
+        self.timer.daemon = True
+        self.timer.start()
+        return self
+
+    def __exit__(self, *a):
+        self.timer.cancel()
+        signal.signal(signal.SIGUSR1, self.old)
+        return False
+
+
 PROBE_KEYS = ("user", "has_user", "logged", "cwd", "rnfr", "rest", "passive", "data", "workers", "type", "lport", "dpeer", "acquired", "xoff", "pio_own", "ids")
 
 
@@ -677,8 +731,10 @@ def run_impl(n, schedule, cfg, align=None):
     if backend != "memory":
         (core.BUILD / "tmp").mkdir(parents=True, exist_ok=True)
         tmp = tempfile.mkdtemp(dir=str(core.BUILD / "tmp"))
+    heartbeat()
     gate = Gate()
     out = {}
+    progress = {"step": None}
     try:
 
         async def main(net):
@@ -720,6 +776,8 @@ def run_impl(n, schedule, cfg, align=None):
                     net.loop.call_at(align[len(starts[i])], fut.set_result, None)
                     await fut
                 starts[i].append(net.loop.time())
+                progress["step"] = (len(progress.get("done", [])), i, atom.get("verb", atom["k"]), atom.get("arg", ""))
+                progress.setdefault("done", []).append(i)
                 before = [s.xprobe() for s in ss]
                 await ss[i].do(atom)
                 steps.append((before, [s.xprobe() for s in ss]))
@@ -752,8 +810,14 @@ def run_impl(n, schedule, cfg, align=None):
                 starts=starts,
             )
 
-        with lowered_watermark():
-            simnet.run(main)
+        try:
+            with lowered_watermark(), Watchdog(LOOP_BUDGET) as dog:
+                simnet.run(main)
+        except (LoopBlocked, TimeoutError):
+            # the event-loop thread did not come back within the wall budget: nothing any session does can be answered
+            return {"frozen": progress["step"] or ("start", None, "", ""), "budget": LOOP_BUDGET}
+        if not out:
+            return {"frozen": progress["step"] or ("start", None, "", ""), "budget": LOOP_BUDGET}
         return out
     finally:
         if tmp:
@@ -804,7 +868,7 @@ def solo(script, d, cfg):
 def solos_for(n, dirs, schedule, cfg, res):
     """the solo runs to compare with: cached per script - or, with speed limits, re-run with every step of the session
     starting at the same virtual instant as in the interleaved run"""
-    if cfg.get("limits"):
+    if cfg.get("limits") and "frozen" not in res:
         return [run_impl(1, [(0, a) for a in project_atoms(schedule, i)], cfg, align=res["starts"][i]) for i in range(n)]
     return [solo(project_atoms(schedule, i), dirs[i], cfg) for i in range(n)]
 
@@ -816,6 +880,12 @@ def verbs_of(script):
 def oracle(n, dirs, schedule, cfg, res, solos):
     """the property, evaluated on the implementation alone.  Returns list of (key, what, detail)"""
     bad = []
+    for who, r in [("interleaved", res)] + [(f"solo run of session {i}", solos[i]) for i in range(len(solos))]:
+        if "frozen" in r:
+            k, i, verb, arg = r["frozen"]
+            return [("c17-event-loop-blocked" + ("" if who == "interleaved" else "-solo"),
+                     f"{who}: the server's event-loop thread did not return within {r['budget']} s of wall time during step #{k} "
+                     f"({verb} {arg} of session {i}): every session is frozen (a blocking call / a thread lock held across an await)", {"actor": i, "at": k})]
     canon_initial = ftpsim.canon_tree(TREE)
     # O6 every command sent and completed in one step: the same replies at the same VIRTUAL instants (relative to the
     # instant the command was sent) as in the solo run - nobody is delayed, let alone blocked, by what others do
@@ -914,7 +984,9 @@ def model_events(schedule):
     out = []
     for i, a in schedule:
         k = a["k"]
-        if k in ("cmd", "send"):
+        if k in ("cmd", "send") and a.get("raw"):
+            out.append([i, []])  # an undecodable command line: parse_command raises, the dispatcher ends that session
+        elif k in ("cmd", "send"):
             p = a["payload"].encode("latin-1") if a.get("payload") is not None else None
             out.append([i, [a["verb"].lower(), a.get("arg", ""), [p] if p is not None else []]])
         elif k == "conn":
@@ -1284,6 +1356,32 @@ def gen_jobs(rng, thorough, budget=None):
         r = rng.random()
         s = burstify(merge_alternate(scripts)) if r < 0.5 else (burstify(merge_random(rng, scripts)) if r < 0.75 else merge_random(rng, scripts))
         jobs.append(("speed-limits-" + ("same-user" if len(set(ls)) == 1 else "other-users"), nn, ds, scripts, s, cfg))
+    # (6) two listings at once: a LIST / MLSD worker suspended mid-listing (each way) while another session lists its own directory
+    lw = [(e, mode) for e, atom in enumerate(script("u", "type", "a")) if atom["k"] == "cmd" and atom["verb"] in ("LIST", "MLSD")
+          for mode in modes_for(atom) if mode[0] == "hold" or mode[1][0] in WORKER_OPS]
+    for k, (e, mode) in enumerate(lw * (3 if thorough else 1)):
+        for same in ((True, False) if thorough or k % 2 == 0 else (False,)):
+            da, db = rng.sample(DIRS, 2)
+            la = rng.choice(["u", "v", "n"])
+            lb = la if same else ("v" if la == "u" else "u")
+            sa, sb = script(la, "type", da), script(lb, "type", db)
+            cfg = {"backend": "async" if (k + same) % 3 == 0 else "memory"}
+            s = window_schedule(sa, e, mode, sb, rng.choice([0, len(LOGIN[lb]) + 1]), len(sb), rng=None)
+            jobs.append(("overlapping-listings", 2, [da, db], [project_atoms(s, 0), project_atoms(s, 1)], s, cfg))
+    # (7) one session sends a command line that is not valid UTF-8 (raw latin-1 bytes) at every point of another session's work
+    # with non-ASCII names (created, stored into, listed, renamed, retrieved): encodings are per byte stream, not per server
+    for rb in ("rawbytes", "rawbytes2"):
+        for same in (True, False):
+            da, db = rng.sample(DIRS, 2)
+            la = rng.choice(["u", "v", "n"])
+            lb = la if same else ("v" if la == "u" else "u")
+            sa, sb = script(la, rb, da), script(lb, "unicode", db)
+            scheds = [[(1, b) for b in sb[:k]] + [(0, a) for a in sa] + [(1, b) for b in sb[k:]] for k in range(len(sb) + 1)]
+            if not thorough:
+                scheds = [scheds[0], scheds[len(LOGIN[lb]) + 1]] + rng.sample(scheds, 3)
+            scheds.append(burstify(merge_alternate([sa, sb])))
+            for s in scheds:
+                jobs.append(("raw-bytes-vs-unicode-names", 2, [da, db], [sa, sb], s, {"backend": rng.choice(["memory", "memory", "path"])}))
     # the victim itself is torn down half-way (its partial effects stay its own)
     for _ in range(300 if thorough else 24):
         ba, la, e, mode = rng.choice(wins)
@@ -1323,7 +1421,19 @@ def removable_units(schedule):
 
 def shrink(n, dirs, schedule, cfg, key, tries=120):
     """greedy: drop atoms (latest first) while the SAME oracle keeps failing; solo runs are re-derived from the shrunk scripts"""
+    global LOOP_BUDGET
     cur = list(schedule)
+    changed = True
+    old_budget = LOOP_BUDGET
+    if key.startswith("c17-event-loop-blocked"):
+        LOOP_BUDGET, tries = min(LOOP_BUDGET, 1.5), min(tries, 60)  # every candidate that still freezes costs its whole budget
+    try:
+        return _shrink(n, dirs, cur, cfg, key, tries)
+    finally:
+        LOOP_BUDGET = old_budget
+
+
+def _shrink(n, dirs, cur, cfg, key, tries):
     changed = True
     while changed and tries > 0:
         changed = False
@@ -1346,6 +1456,113 @@ def shrink(n, dirs, schedule, cfg, key, tries=120):
     return cur
 
 
+# ---------------------------------------------------------------- supervision: the check always ends with a verdict
+STALL_BUDGET = float(os.environ.get("C17_STALL_BUDGET", "40"))  # wall seconds without a heartbeat (one per run of a schedule)
+_BEACON = {"mm": None}
+_HB = struct.Struct("<qd")
+CTX_LISTS = ("violations", "disagreements", "broken", "known_hits", "notes", "samples")
+CTX_WHOLE = ("dist", "extra", "violation_keys", "known_keys", "traces_impl")  # evaluations / nontrivial: counted by the parent (on_done)
+
+
+def heartbeat(k=None):
+    mm = _BEACON["mm"]
+    if mm is not None:
+        cur = _HB.unpack(mm[: _HB.size])[0] if k is None else k
+        mm[: _HB.size] = _HB.pack(cur, time.time())
+
+
+def supervised(ctx, njobs, one_job, on_stall, extra_state, on_done=None):
+    """Run one_job(k) for k = 0.. in a forked CHILD; after every job the child ships what the job added to ctx (and to
+    extra_state's lists / dicts) through a pipe.  The parent only watches a heartbeat in shared memory (written at the start
+    of every job and of every run of a schedule): no heartbeat for STALL_BUDGET seconds = the process is stuck in something
+    the in-process watchdog could not interrupt -> SIGKILL, on_stall(k) records the schedule, a new child goes on after k."""
+    mm = mmap.mmap(-1, 64)
+    start, restarts = 0, 0
+    while start < njobs and restarts <= 6:
+        mm[: _HB.size] = _HB.pack(start, time.time())
+        r, w = os.pipe()
+        pid = os.fork()
+        if pid == 0:
+            rc = 0
+            try:
+                os.close(r)
+                _BEACON["mm"] = mm
+                out = os.fdopen(w, "wb")
+                for k in range(start, njobs):
+                    heartbeat(k)
+                    lens = {f: len(getattr(ctx, f)) for f in CTX_LISTS}
+                    xl = {f: (len(v) if isinstance(v, list) else None) for f, v in extra_state.items()}
+                    go = one_job(k)
+                    msg = {
+                        "k": k, "go": go,
+                        "lists": {f: getattr(ctx, f)[lens[f]:] for f in CTX_LISTS},
+                        "whole": {f: getattr(ctx, f) for f in CTX_WHOLE},
+                        "extra": {f: (v[xl[f]:] if isinstance(v, list) else v) for f, v in extra_state.items()},
+                    }
+                    blob = pickle.dumps(msg, protocol=4)
+                    out.write(struct.pack("<I", len(blob)) + blob)
+                    out.flush()
+                    if not go:
+                        break
+            except BaseException:
+                import traceback
+                traceback.print_exc()
+                rc = 3
+            finally:
+                os._exit(rc)
+        os.close(w)
+        buf = b""
+        last_k, finished, stop = start - 1, False, False
+        while True:
+            rd, _, _ = select.select([r], [], [], 1.0)
+            if rd:
+                chunk = os.read(r, 1 << 20)
+                if not chunk:
+                    finished = True
+                    break
+                buf += chunk
+                while len(buf) >= 4 and len(buf) >= 4 + struct.unpack("<I", buf[:4])[0]:
+                    ln = struct.unpack("<I", buf[:4])[0]
+                    msg = pickle.loads(buf[4 : 4 + ln])
+                    buf = buf[4 + ln :]
+                    last_k = msg["k"]
+                    if on_done is not None:
+                        on_done(last_k)
+                    for f, v in msg["lists"].items():
+                        getattr(ctx, f).extend(v)
+                    for f, v in msg["whole"].items():
+                        setattr(ctx, f, v)
+                    for f, v in msg["extra"].items():
+                        if isinstance(extra_state[f], list):
+                            extra_state[f].extend(v)
+                        else:
+                            extra_state[f].clear()
+                            extra_state[f].update(v)
+                    stop = stop or not msg["go"]
+                continue
+            k, t = _HB.unpack(mm[: _HB.size])
+            if time.time() - t > STALL_BUDGET:
+                os.kill(pid, signal.SIGKILL)
+                break
+        os.close(r)
+        try:
+            _, status = os.waitpid(pid, 0)
+        except ChildProcessError:
+            status = 0
+        if stop or (finished and last_k >= njobs - 1):
+            return
+        if finished and status != 0 and last_k < njobs - 1:
+            # the child died (crash of the interpreter / uncaught BaseException): treat the job in flight like a stall
+            ctx.notes.append(f"supervised child ended with status {status} in job {last_k + 1}")
+        k = last_k + 1
+        if k < njobs:
+            if on_done is not None:
+                on_done(k)
+            on_stall(k)
+        start = k + 1
+        restarts += 1
+
+
 # ---------------------------------------------------------------- one case
 def check_case(ctx, fam, n, dirs, schedule, cfg, mo=None, verbose=False):
     """run the interleaved schedule and the solo runs; oracles; model correspondence.  Returns True when clean."""
@@ -1354,7 +1571,7 @@ def check_case(ctx, fam, n, dirs, schedule, cfg, mo=None, verbose=False):
     solos = solos_for(n, dirs, schedule, cfg, res)
     rep = {"family": fam, "n": n, "dirs": dirs, "cfg": cfg, "schedule": [[i, a] for i, a in schedule]}
     clean = True
-    for name, i, verb in res["writes"]:
+    for name, i, verb in res.get("writes", []):
         # not a property violation by itself: the closed obligation C17_source_obligations (static write-site inventory) has a
         # dynamic twin - a session step changed something outside its Connection and outside the declared shared structures
         if name not in ctx.extra.setdefault("dynamic_writes", {}):
@@ -1372,7 +1589,7 @@ def check_case(ctx, fam, n, dirs, schedule, cfg, mo=None, verbose=False):
             ctx.obligation_broken("per-socket-objects", f"{key}: {what}")
     bad = [b for b in bad if not b[0].startswith("c17-mech-")]
     for key, what, extra in bad[:1]:
-        if not verbose and len(ctx.violations) < 3:
+        if not verbose and len(ctx.violations) < 3 and not (key.startswith("c17-event-loop-blocked") and any(v["replay"].get("key", "").startswith("c17-event-loop-blocked") for v in ctx.violations)):
             small = shrink(n, dirs, schedule, cfg, key)
             if len(small) < len(schedule):
                 res2 = run_impl(n, small, cfg)
@@ -1383,6 +1600,8 @@ def check_case(ctx, fam, n, dirs, schedule, cfg, mo=None, verbose=False):
                     key, what, extra = bad2[0]
         ctx.violation(f"property oracle: {key}: {what}", dict(rep, key=key, **extra))
         clean = False
+    if "frozen" in res or any("frozen" in so for so in solos):
+        return clean  # nothing else can be observed of a frozen server
     if verbose:
         for i in range(n):
             print(f"--- session {i} in /{dirs[i]}")
@@ -1474,7 +1693,10 @@ def correspondence(ctx, budget=None):
         "AsyncPathIO on a subset, block sizes 8..256, optional port pool; (3) a peer that stops reading its CONTROL channel and pipelines "
         "commands until its replies no longer fit the server's write buffer while the others work and a new session connects late; "
         "(4) per-connection speed limits (of the user, of the server): same-user / other-user sessions transfer at the same time, every "
-        "reply instant on the virtual clock is compared with a time-aligned solo run. Non-trivial = distinct (schedule, configuration)."
+        "reply instant on the virtual clock is compared with a time-aligned solo run; (5) two listings at once (one suspended mid-listing); "
+        "(6) a command line of raw non-UTF-8 bytes in one session at every point of another session's work with non-ASCII names. Every run "
+        "of a schedule is under a wall-clock watchdog, the whole stream in a supervised child process: a frozen event loop is reported as "
+        "a violation with the schedule. Non-trivial = distinct (schedule, configuration)."
     )
     jobs = gen_jobs(rng, thorough, budget)
     ctx.extra.setdefault("dynamic_writes", {})
@@ -1486,9 +1708,10 @@ def correspondence(ctx, budget=None):
     model_out = ctx.model(model_in)
     xcheck = []
     verbs = {}
-    for (fam, n, dirs, scripts, sched, cfg), (off, ln) in zip(jobs, spans):
-        key = json.dumps([[i, a] for i, a in sched], sort_keys=True) + json.dumps(cfg, sort_keys=True) + str(dirs)
-        ctx.case(key)
+
+    def one_job(k):
+        """runs in the supervised CHILD; returns False to stop the stream"""
+        (fam, n, dirs, scripts, sched, cfg), (off, ln) = jobs[k], spans[k]
         ctx.traces_impl += 1 + n
         ctx.count("family:" + fam)
         ctx.count("backend_" + cfg.get("backend", "memory"))
@@ -1513,8 +1736,22 @@ def correspondence(ctx, budget=None):
             xcheck.append((0, model_in[off + 1][1], model_out[off + 1]))
         if len(ctx.samples) < 5 and fam.startswith("window"):
             ctx.sample({"family": fam, "dirs": dirs, "cfg": cfg, "schedule": [[i, a.get("verb", a["k"]), a.get("arg", ""), a.get("mode")] for i, a in sched][:40]})
-        if len(ctx.violations) >= 8:
-            break
+        return len(ctx.violations) < 8
+
+    def on_stall(k):
+        fam, n, dirs, scripts, sched, cfg = jobs[k]
+        ctx.count("family:" + fam)
+        ctx.violation(
+            f"property oracle: c17-event-loop-blocked: the process running the server did not come back from this schedule within {STALL_BUDGET} s "
+            "of wall time and could not be interrupted (killed by the supervisor): every session is frozen",
+            {"family": fam, "n": n, "dirs": dirs, "cfg": cfg, "schedule": [[i, a] for i, a in sched], "key": "c17-event-loop-blocked"},
+        )
+
+    def on_done(k):
+        fam, n, dirs, scripts, sched, cfg = jobs[k]
+        ctx.case(json.dumps([[i, a] for i, a in sched], sort_keys=True) + json.dumps(cfg, sort_keys=True) + str(dirs))
+
+    supervised(ctx, len(jobs), one_job, on_stall, {"xcheck": xcheck, "verbs": verbs}, on_done)
     ctx.extra["verbs_exercised"] = verbs
     ok, out = core.vm_crosscheck(EXTRACT, xcheck)
     ctx.extra["vm_compute_crosscheck"] = {"cases": len(xcheck), "agree": ok}
